@@ -285,6 +285,34 @@ def _len_expr_iv(world: World, lens: Lengths, f: Func, e: ast.expr, at: ast.AST)
 
         base: t.Optional[IV] = None
         extra = IV.const(0)
+        # a, b = L  with L a local list that only ever receives `L.append(x)` / a display: each target is one of those x
+        for n in body_nodes(f.node):
+            if isinstance(n, ast.Assign) and len(n.targets) == 1 and isinstance(n.targets[0], (ast.Tuple, ast.List)) and any(isinstance(x, ast.Name) and x.id == e.id for x in n.targets[0].elts) and isinstance(n.value, ast.Name):
+                lst = n.value.id
+                vals: t.List[ast.expr] = []
+                okl = True
+                for m in body_nodes(f.node):
+                    if isinstance(m, ast.Assign) and len(m.targets) == 1 and isinstance(m.targets[0], ast.Name) and m.targets[0].id == lst:
+                        if isinstance(m.value, (ast.List, ast.Tuple)) and not any(isinstance(x, ast.Starred) for x in m.value.elts):
+                            vals += list(m.value.elts)
+                        else:
+                            okl = False
+                    elif isinstance(m, ast.Call) and isinstance(m.func, ast.Attribute) and isinstance(m.func.value, ast.Name) and m.func.value.id == lst:
+                        if m.func.attr == "append" and len(m.args) == 1:
+                            vals.append(m.args[0])
+                        else:
+                            okl = False
+                    elif isinstance(m, ast.AugAssign) and isinstance(m.target, ast.Name) and m.target.id == lst:
+                        okl = False
+                if not okl or not vals:
+                    return None
+                out_iv: t.Optional[IV] = None
+                for v_ in vals:
+                    iv_ = len_expr_iv(world, lens, f, v_, n)
+                    if iv_ is None:
+                        return None
+                    out_iv = iv_ if out_iv is None else out_iv.join(iv_)
+                return out_iv
         for n in body_nodes(f.node):
             if isinstance(n, ast.Assign) and len(n.targets) == 1 and isinstance(n.targets[0], ast.Name) and n.targets[0].id == e.id:
                 iv = len_expr_iv(world, lens, f, n.value, n)
@@ -303,6 +331,9 @@ def _len_expr_iv(world: World, lens: Lengths, f: Func, e: ast.expr, at: ast.AST)
                     bits = max(base.hi.bit_length(), iv.hi.bit_length())
                     base = IV(0, (1 << bits) - 1)
                     continue
+                from sa.intervals import _mul
+
+                iv = _mul(iv, lens.trip_count(f, n))
                 extra = _add(extra, IV(0, iv.hi) if lens.conditional(f, n) else iv)
         if base is None:
             return None
